@@ -24,6 +24,9 @@ CHECKS = {
  "C10": dict(engine="job", technique="TLC model checking of JobTask.tla (PriorityOrder) + TLC trace monitor (MonC10) over repeated runs",
    text="TLC checks that no control is taken from a lower-priority queue while a higher one is non-empty, for every queue content at the time the task looks; the monitor replays the queue discipline on recorded dequeue events (FIFO per priority, urgent > high > normal, each sent control executed exactly once); every script is repeated because tokio's select! is random per run.",
    ref="4.1, 6 C10"),
+ "C03": dict(engine="pure", technique="TLA+ reference semantics (IgnoreScope.tla) with scoping laws checked by TLC; enumerated cases replayed on real trees through IgnoreFilter / IgnoreFilterer",
+   text="IgnoreScope.tla defines git-style evaluation over a tree with prefix-related sibling directories (test/tests, origin/originx): nearest directory first, last matching line wins, path before parents, then globals; TLC checks Scoping, NegationLocal and OrderIrrelevant on it and enumerates ignore-file sets (all single files, all pairs of one-line files, seeded samples of 2-3 files) with the expected verdict of 20 probes each; the real filter is built five ways (new, new again, new with a permuted list, new+add_file, empty+add_file) and must give the expected verdict through check_event and check_dir every time.",
+   ref="6 C03", note="Trusted: TLC; the glob semantics of the reference cover the 14 patterns of the table. Skipped as unspecified: a directory vs an ignore file inside it, re-inclusion below an excluded parent, anchored global patterns seen from outside the origin."),
  "C20": dict(engine="pure", technique="TLA+ decision spec (Origins.tla) checked and enumerated by TLC; every case replayed on real directory trees",
    text="Origins.tla holds the documented marker table, the declarative IsOrigin/TypesOf and the VCS/software-suite partition; TLC checks that the ancestor walk equals the declarative definition and that every reported type lies in exactly one category, and enumerates every marker with the right and the wrong node type plus all chains up to the bound; each enumerated case is materialised as a real directory chain and origins()/types()/is_vcs()/is_soft() must answer as the spec does.",
    ref="6 C20", note="Trusted: TLC; the marker table and classification in Origins.tla (transcribed from the crate documentation) are the reference. Ancestors above the scratch root are outside the universe."),
